@@ -40,6 +40,11 @@ THEOREMS = [
     "C12.wm_fixed_zero_duration",
     "C12.aggregates2_meet_spec",
     "C12.aggregates2_are_exact",
+    # extended reals (XV) and sub-millisecond duration tokens
+    "C12.xmin_meets_spec",
+    "C12.xmax_meets_spec",
+    "C12.xextreme_unique",
+    "C12.parseDur_truncates",
 ]
 N = {"quick": 4000, "thorough": 60000}
 EXHAUSTIVE = {"quick": False, "thorough": False}
@@ -96,8 +101,10 @@ ASSUMPTIONS = [
     "XV cases only: Number fields over all of f64 as the ordered type XNum (-inf < -f64::MAX < integers < f64::MAX < +inf, NaN unordered; "
     "f64::min/max return the other operand when one is NaN); any NaN prints as `z`; operators::Min/Max are not observed when a NaN is "
     "present (they compare with partial_cmp().unwrap()), the sum is not observed when a NaN or +-f64::MAX is present (order dependent); "
-    "no theorem covers XNum (model and the declarative oracle xMinOk/xMaxOk are tied by the correspondence check only)",
-    "durations cross the wire as `<ms>` or `u<micros>`; the driver truncates micros/1000 exactly as Duration::as_millis() does; "
+    "xmin_meets_spec/xmax_meets_spec prove that the fold model xMin/xMax satisfies the declarative oracle xMinOk/xMaxOk for every value "
+    "list and xextreme_unique that the oracle admits no other answer; the sum over XNum (xSum) has no theorem (correspondence check only)",
+    "durations cross the wire as `<ms>` or `u<micros>`; the driver hands DurArg.ms to the model (micros/1000), proved equal to "
+    "Duration::as_millis() of Duration::from_millis / from_micros as std defines them (parseDur_truncates; Dur mirrors secs + subsec nanos); "
     "TimeWindow::new with start + duration > u64::MAX (an overflowing add in the code) is not generated: unbounded windows start at 0",
     "event identity = caller-assigned id (StreamEvent.id), unique per case",
     "WindowedStream windows come out of a HashMap in arbitrary order: compared as the list sorted by start (starts are proved distinct); "
